@@ -37,6 +37,11 @@ pub struct C09Case {
     #[serde(with = "crate::exact::map")]
     pub selection: Map<String, Value>,
     pub kb: Option<KbArgs>,
+    /// relation of the top-level `iat` to the other temporal claims (no effect on the expected
+    /// decision): 0 untouched, 1 same JSON value as nbf, 2 same as exp, 3 absent, 4 far future,
+    /// 5 `exp` gets the same value as nbf when both are in the future
+    #[serde(default)]
+    pub iat_mode: u8,
 }
 
 pub const YEAR_2100: u64 = 4_102_444_800;
@@ -103,6 +108,38 @@ pub fn check(case: &C09Case, st: &mut Stats) -> Verdict {
             must_reject.push("nbf more than 120 s in the future");
             st.label(if secs < 600 { "nbf=future<10min" } else if secs < 86400 { "nbf=future<1day" } else { "nbf=future>=1day" });
         }
+    }
+    match case.iat_mode {
+        1 => {
+            if let Some(v) = obj.get("nbf").cloned() {
+                obj.insert("iat".into(), v);
+                st.label("iat==nbf");
+            }
+        }
+        2 => {
+            if let Some(v) = obj.get("exp").cloned().filter(Value::is_number) {
+                obj.insert("iat".into(), v);
+                st.label("iat==exp");
+            }
+        }
+        3 => {
+            obj.shift_remove("iat");
+            st.label("iat=absent");
+        }
+        4 => {
+            obj.insert("iat".into(), Value::from(now + TEN_YEARS));
+            st.label("iat=far_future");
+        }
+        5 => {
+            if let (ExpSpec::Future { .. }, NbfSpec::Future { .. }) = (&case.exp, &case.nbf) {
+                let v = obj.get("nbf").cloned().unwrap();
+                if v.as_f64().map(|f| f > (now + 3600) as f64).unwrap_or(false) {
+                    obj.insert("exp".into(), v);
+                    st.label("exp==nbf");
+                }
+            }
+        }
+        _ => {}
     }
     let tree = mark(&spec.claims, &spec.strat).map_err(|e| Failure::new("harness:bad-case", format!("{:?}", e)))?;
     if tree.hidden_paths().iter().any(|p| p.len() == 1 && p[0] == crate::tree::Seg::K("nbf".into())) {
